@@ -1,10 +1,14 @@
 import Gallia.Lib.Proto
 import Gallia.Model.UdsResp
+import Gallia.Model.UdsRespCtor
 open Gallia Gallia.Proto Gallia.UdsResp
 
 /-
   Line protocol of the C02 model driver:
     dec <hex>      ->  reject <reason> | raw <hex> | ok <Class> <field>=<value>... pdu=<hex of encodeResp>
+    con <Class> <form> <arg>...  ->  none | ok <Class> <field>=<value>... pdu=<hex>     (constructor + .pdu; `form` = Fields constructor,
+                       args: decimal ints (signed), `none`, hex bytes (`-` empty), `,`-separated lists, `k:v` dict entries)
+    conv <Class> <did> <hex>     ->  the same for the InputOutputControlByIdentifier convenience classes
   integers are printed in decimal, byte strings as lower-case hex (`-` = empty), absent optionals as `none`.
 -/
 
@@ -47,8 +51,56 @@ def showDec (b : Bytes) : String :=
   | .ok (.rawPos p) => s!"raw {hexOrDash p}"
   | .ok r => joinSp (["ok", className b] ++ fields r ++ [s!"pdu={hexOrDash (encodeResp r)}"])
 
+def pInt (s : String) : Option Int := s.toInt?
+def pOptInt (s : String) : Option (Option Int) := if s == "none" then some none else s.toInt?.map some
+def pList {α} (f : String → Option α) (s : String) : Option (List α) :=
+  if s == "-" then some [] else (s.splitOn ",").mapM f
+def pHexE (s : String) : Option Bytes := if s == "e" then some [] else parseHex s
+def pPair {α β} (f : String → Option α) (g : String → Option β) (s : String) : Option (α × β) :=
+  match s.splitOn ":" with
+  | [a, b] => match f a, g b with
+    | some x, some y => some (x, y)
+    | _, _ => none
+  | _ => none
+
+def parseFields : List String → Option Fields
+  | ["neg", a, b] => do pure (.neg (← pInt a) (← b.toNat?))
+  | ["dsc", a, b] => do pure (.dsc (← pInt a) (← parseHex b))
+  | ["ecuReset", a, b] => do pure (.ecuReset (← pInt a) (← pOptInt b))
+  | ["secAccess", a, b] => do pure (.secAccess (← pInt a) (← parseHex b))
+  | ["commCtrl", a] => do pure (.commCtrl (← pInt a))
+  | ["testerPresent"] => some .testerPresent
+  | ["ctrlDTC", a] => do pure (.ctrlDTC (← pInt a))
+  | ["rdbi", a, b] => do pure (.rdbi (← pList pInt a) (← pList pHexE b))
+  | ["rmba", a] => do pure (.rmba (← parseHex a))
+  | ["dddi", a] => do pure (.dddi (← pOptInt a))
+  | ["wdbi", a] => do pure (.wdbi (← pInt a))
+  | ["wmba", a, b, c] => do pure (.wmba (← pInt a) (← pInt b) (← pOptInt c))
+  | ["clearDTC"] => some .clearDTC
+  | ["dtcCount", a, b, c] => do pure (.dtcCount (← pInt a) (← b.toNat?) (← pInt c))
+  | ["dtcListD", a, b] => do pure (.dtcListD (← pInt a) (← pList (pPair pInt pInt) b))
+  | ["dtcListB", a, b] => do pure (.dtcListB (← pInt a) (← parseHex b))
+  | ["dtcExtT", a, b, c] => do pure (.dtcExtT (← pInt a) (← pInt b) (← pList (pPair pInt pHexE) c))
+  | ["dtcExtB", a, c] => do pure (.dtcExtB (← parseHex a) (← pList (pPair pInt pHexE) c))
+  | ["iocbi", a, b] => do pure (.iocbi (← pInt a) (← parseHex b))
+  | ["routine", a, b] => do pure (.routine (← pInt a) (← parseHex b))
+  | ["upDownload", a, b] => do pure (.upDownload (← pInt a) (← pOptInt b))
+  | ["transferData", a, b] => do pure (.transferData (← pInt a) (← parseHex b))
+  | ["transferExit", a] => do pure (.transferExit (← parseHex a))
+  | _ => none
+
+def showCon : Option Resp → String
+  | none => "none"
+  | some r => joinSp (["ok", className (encodeResp r)] ++ fields r ++ [s!"pdu={hexOrDash (encodeResp r)}"])
+
 def step (line : String) : String :=
   match words line with
+  | "con" :: cls :: rest => match parseFields rest with
+    | some f => showCon (construct cls f)
+    | none => "bad-op"
+  | ["conv", cls, d, h] => match pInt d, parseHex h with
+    | some d, some b => showCon (constructConv cls d b)
+    | _, _ => "bad-op"
   | ["dec", h] => match parseHex h with
     | some b => showDec b
     | none => "bad-op"
